@@ -2,6 +2,7 @@ package main
 
 import (
 	"bufio"
+	"bytes"
 	"errors"
 	"fmt"
 	"os"
@@ -207,6 +208,35 @@ func runC02(c *runCfg) error {
 			cs.id = fmt.Sprint(id)
 		}
 		emitSession(c, cs)
+		id++
+	}
+	// COPY-in that the client aborts, the handler handing the reader's error back: the reason the client
+	// gave travels into an ErrorResponse
+	for _, reason := range [][]byte{[]byte("client gave up"), {}, []byte("with \"quotes\" and \xc3\xa9"), bytes.Repeat([]byte("r"), 300)} {
+		for _, ext := range []bool{false, true} {
+			st := stmtT{id: 5, cols: textCols(2), prog: []opT{{kind: "copyin", fmt: 0}, {kind: "copyread"}, {kind: "copyread"}, {kind: "complete", tag: []byte("COPY 1")}}, stop: true, ret: "last"}
+			cfg := cfgT{limit: 1024, auth: "none", term: "none", parse: []parseEntry{{query: []byte("copy"), stmts: []stmtT{st}}}}
+			var msgs [][]byte
+			if ext {
+				msgs = append(msgs, mParse(nil, []byte("copy"), 0), mBind(nil, nil, nil, nil, nil), mExecute(nil, 0))
+			} else {
+				msgs = append(msgs, mQuery([]byte("copy")))
+			}
+			msgs = append(msgs, mCopyData([]byte("a,b\n")), mCopyFail(reason), mSync(), msg('f', []byte("no terminator")), mSync())
+			emitSession(c, lockCase(id, "copyfail", cfg, stdStartup, msgs))
+			id++
+		}
+	}
+	// statements declared with exactly what the real ParseParameters returns, at the 16-bit boundary of the
+	// ParameterDescription count, prepared and described over the wire
+	for _, q := range []string{"SELECT $65535 WHERE ?", "SELECT $65534 WHERE ? AND ?", strings.Repeat("?,", 65535) + "$1", "$65535 $65535 ?", "select $3"} {
+		n, _, _ := ppObserve([]byte(q))
+		if n < 0 {
+			n = 0
+		}
+		st := stmtT{id: 1, cols: textCols(1), poids: make([]int, n), prog: []opT{{kind: "complete", tag: []byte("SELECT 0")}}, ret: "nil"}
+		cfg := cfgT{limit: 0, auth: "none", term: "none", parse: []parseEntry{{query: []byte(q), stmts: []stmtT{st}}}}
+		emitSession(c, lockCase(id, "paramdesc", cfg, stdStartup, [][]byte{mParse([]byte("s"), []byte(q), 0), mDescribe('S', []byte("s")), mSync()}))
 		id++
 	}
 	// wide tables, long and unusual names, many decorated errors
